@@ -74,6 +74,84 @@ pub const CALLS: [Call; 14] = [
     ("debug fmt", |f| hash64(&format!("{:?}", f.layer(1)).len())),
 ];
 
+/// Second subject: 2 frames x 300 layers (pattern 2 has cels at (0,256), (0,0), (1,1), (1,257) ...).
+/// Calls address cels whose coordinates differ only beyond bit 7, or only in which coordinate
+/// carries the high bits.
+pub const WIDE_CALLS: [Call; 10] = [
+    ("cel(0,0).image", |f| h_img(f.cel(0, 0).image())),
+    ("cel(0,256).image", |f| h_img(f.cel(0, 256).image())),
+    ("cel(1,1).image", |f| h_img(f.cel(1, 1).image())),
+    ("cel(1,257).image", |f| h_img(f.cel(1, 257).image())),
+    ("frame(1).layer(0).image", |f| h_img(f.frame(1).layer(0).image())),
+    ("layer(97).frame(0).image", |f| h_img(f.layer(97).frame(0).image())),
+    ("frame(0).image", |f| h_img(f.frame(0).image())),
+    ("frame(1).image", |f| h_img(f.frame(1).image())),
+    ("cel(0,256) attrs", |f| {
+        let c = f.cel(0, 256);
+        hash64(&(c.is_empty(), c.top_left(), c.user_data().map(|u| u.text.clone())))
+    }),
+    ("layer(299) attrs", |f| {
+        let l = f.layer(299);
+        hash64(&(l.name().to_string(), l.opacity(), l.is_visible()))
+    }),
+];
+
+fn wide_histories(ctx: &Ctx, thorough: bool) {
+    let depth = if thorough { 4 } else { 3 };
+    let fam = format!("wide-histories-depth{}", depth);
+    if !ctx.wants_family(&fam) {
+        return;
+    }
+    let bytes = gen::wide(2, 300, 2).encode();
+    let fresh = || match load(&bytes) {
+        Loaded::Ok(f) => f,
+        _ => {
+            eprintln!("machinery error: C16 wide subject does not load");
+            std::process::exit(2);
+        }
+    };
+    let base: Vec<u64> = WIDE_CALLS.iter().map(|(_, c)| c(&fresh())).collect();
+    let n = WIDE_CALLS.len();
+    let mut hist: Vec<Vec<usize>> = vec![vec![]];
+    let mut frontier: Vec<Vec<usize>> = vec![vec![]];
+    for _ in 0..depth {
+        let mut next = Vec::new();
+        for h in &frontier {
+            for c in 0..n {
+                let mut h2 = h.clone();
+                h2.push(c);
+                next.push(h2);
+            }
+        }
+        hist.extend(next.iter().cloned());
+        frontier = next;
+    }
+    ctx.family(&fam, hist.len() as u64, &format!("every call sequence with repetition of length <= {} over {} calls on a 2-frame x 300-layer sprite whose cels sit at coordinates that differ only beyond bit 7 ((0,0) vs (0,256), (1,1) vs (1,257), (0,256) vs (1,0)); each call compared with a freshly loaded sprite", depth, n), true);
+    hist.par_iter().for_each(|h| {
+        let case = || format!("{:?}", h.iter().map(|i| WIDE_CALLS[*i].0).collect::<Vec<_>>());
+        if !ctx.wants(&fam, &case) {
+            return;
+        }
+        let f = fresh();
+        let mut p = Vec::new();
+        let r = observe::guarded(&mut p, || "history".into(), || {
+            for (k, i) in h.iter().enumerate() {
+                if (WIDE_CALLS[*i].1)(&f) != base[*i] {
+                    return Some(format!("call #{} ({}) returned a different result than on a fresh sprite", k, WIDE_CALLS[*i].0));
+                }
+            }
+            None
+        });
+        ctx.eval(h.len() as u64);
+        ctx.outcome(hash64(&(h.len(), h.first())));
+        match r {
+            Some(None) => {}
+            Some(Some(msg)) => ctx.violation(Violation { family: fam.clone(), case: case(), sig: "history-dependent".into(), detail: msg, bytes: None, extra: json!({}) }),
+            None => ctx.violation(Violation { family: fam.clone(), case: case(), sig: format!("panic:{}", sig_of(&p[0].1)), detail: p[0].1.clone(), bytes: None, extra: json!({}) }),
+        }
+    });
+}
+
 fn sendsync(ctx: &Ctx) {
     if !ctx.wants_family("sendsync") {
         return;
@@ -433,6 +511,7 @@ pub fn run(ctx: &Ctx) -> i32 {
     let thorough = ctx.tier == Tier::Thorough;
     sendsync(ctx);
     histories(ctx, thorough);
+    wide_histories(ctx, thorough);
     schedules(ctx, thorough);
     free_running(ctx);
     configurations(ctx, thorough);
